@@ -285,6 +285,15 @@ Section WFEdge.
     intros j. rewrite (In_set_add Nat.eqb nat_eqb_spec), H, Hb. reflexivity.
   Qed.
 
+  Lemma set_ok_add2 (r r' : nat -> option (list edge)) l a b :
+    set_ok r l -> (forall j, r' j <> None <-> (j = a \/ j = b \/ r j <> None)) ->
+    set_ok r' (set_add Nat.eqb a (set_add Nat.eqb b l)).
+  Proof.
+    intros (Ha & Hb) H. split.
+    - apply (NoDup_set_add Nat.eqb nat_eqb_spec). apply (NoDup_set_add Nat.eqb nat_eqb_spec). exact Ha.
+    - intros j. rewrite !(In_set_add Nat.eqb nat_eqb_spec), H, Hb. reflexivity.
+  Qed.
+
   Lemma grp_of_ci (g : gstate) (e : edge) ui vi :
     WF g -> name_at g ui = Some (eu e) -> name_at g vi = Some (ev e) ->
     grp_of g (fst (ci (sp g) ui vi)) (snd (ci (sp g) ui vi)) = group g (Kof g e).
@@ -535,19 +544,19 @@ Section WFEdge.
         * subst i. eexists. split; [reflexivity|].
           destruct (Nat.eqb_spec vi ui) as [Evu|Evu].
           -- subst vi. unfold or_default. rewrite Hlu.
-             eapply set_ok_add; [eapply set_ok_add; [exact Hsu|intros j; reflexivity]|].
+             eapply set_ok_add2; [exact Hsu|].
              intros j. rewrite Hrel, Hhit. split.
              ++ intros [[(_ & ->)|(_ & ->)]|H]; auto.
              ++ intros [->|[->|H]]; auto.
           -- unfold or_default. rewrite Hlv. eapply set_ok_add; [exact Hsv|].
              intros j. rewrite Hrel, Hhit. split.
-             ++ intros [[(Ha & _)|(_ & ->)]|H]; auto. congruence.
+             ++ intros [[(Ha & _)|(_ & ->)]|H]; auto; try congruence.
              ++ intros [->|H]; auto.
         * destruct (Nat.eqb_spec i ui) as [Eiu|Eiu].
           -- subst i. eexists. split; [reflexivity|]. unfold or_default. rewrite Hlu.
              eapply set_ok_add; [exact Hsu|].
              intros j. rewrite Hrel, Hhit. split.
-             ++ intros [[(_ & ->)|(Ha & _)]|H]; auto. congruence.
+             ++ intros [[(_ & ->)|(Ha & _)]|H]; auto; try congruence.
              ++ intros [->|H]; auto.
           -- exists l. split; [exact Hl|]. destruct Hs as (Ha & Hb). split; [exact Ha|].
              intros j. rewrite Hrel, Hhit, Hb. split; [auto|].
@@ -569,7 +578,7 @@ Section WFEdge.
           -- apply teqb_spec in Evu.
              split; [apply (NoDup_set_add teqb teqb_spec); apply (NoDup_set_add teqb teqb_spec); exact Hndu|].
              intros y. rewrite !(In_set_add teqb teqb_spec), <- Evu. split.
-             ++ intros [->|[->|H]]; auto. left. split; [reflexivity|]. symmetry. exact Evu.
+             ++ intros [->|[->|H]]; auto.
              ++ intros [(_ & ->)|[(_ & _ & ->)|H]]; auto.
           -- split; [apply (NoDup_set_add teqb teqb_spec); exact Hndv|].
              intros y. rewrite (In_set_add teqb teqb_spec). split.
@@ -646,7 +655,7 @@ Section WFEdge.
     assert (Hgroup : forall k, group g' k = if peqb teqb k (Kof g e) then Some (newl_of g e) else group g k).
     { intros k. unfold WFDefs.group, g'. simpl. apply Hes. }
     assert (Hgrp : forall i j, grp_of g' i j = rel_new g e ui vi i j).
-    { intros i j. unfold WFDefs.grp_of, rel_new.
+    { intros i j. unfold rel_new. unfold WFDefs.grp_of.
       change (name_at g' i) with (name_at g i). change (name_at g' j) with (name_at g j).
       change (sp g') with (sp g).
       destruct (name_at g i) as [x|] eqn:Ei.
